@@ -263,4 +263,10 @@ def run(P, R, tier):
     # the timeout is the last resort against a silent service: one timer per request, armed once, with the configured value
     cl10 = c10.cleanup_fn(P, Remap(R, {'C10.MPT.1': 'C03.TMR.1', 'C10.WIRE.1': 'C03.TMR.1'}))
     c10.timer_lifecycle(P, Remap(R, {'C10.WMC.2': 'C03.TMR.1'}), cl10)
+    # the timed-out bit is what lets a hurried, incomplete client through: nothing may overwrite the flag word
+    from . import c01, c07
+    V, softfns = c01.fmt_rules(P, Remap(R, {}))
+    c01.who_may(P, Remap(R, {'C01.WMC.1': 'C03.WMC.2'}, keys=('bulk', 'clears:')), V, softfns)
+    # a retired service slot stays while a client still waits for its reply (the reply is what ends the wait)
+    c07.storage_audit(P, Remap(R, {'C07.WMC.1': 'C03.WMC.2'}, keys=('slot-release',)))
     return EXPLANATION, ASSUMPTIONS
